@@ -4,6 +4,25 @@ from vlib import Rng
 from props import symgen as G
 
 
+def nonascii_field_files():
+    import re
+    out = []
+    vals = [b"\x80", b"\xff", b"1\x80", b"f\xff", b"\xc3\xa9", b"1\xc3\xa9", b"1\xe2\x82\xac"]
+    for t in G.TEMPLATES:
+        parts = re.split(r"(\{d\}|\{h32\}|\{h64\})", t)
+        slots = [i for i, p in enumerate(parts) if p.startswith("{")]
+        for si in slots:
+            for v in vals:
+                ps = [(b"1" if (p.startswith("{") and i != si) else (v if i == si else p.encode())) for i, p in enumerate(parts)]
+                out.append(b"MODULE Linux x86 ABC name\n" + b"".join(ps) + b"\nFILE 5 after\n")
+    for head in (b"FUNC 1000 10 0 f\n", b"FUNC 1000 10 0 f\n1000 4 1 1\n", b"STACK CFI INIT 1000 10 .cfa: $esp 4 +\n",
+                 b"FILE 1 a\n", b"PUBLIC 10 0 p\n", b""):
+        for first in (b"\x80", b"\xff", b"\xc3\xa9", b"\xf0\x9f\x98\x80"):
+            for rest in (b"", b" 4 1 1", b"1000 4 1 1"):
+                out.append(b"MODULE Linux x86 ABC name\n" + head + first + rest + b"\nFILE 5 after\n")
+    return out
+
+
 class C09(PropBase):
     pid = "C09"
     coq_dirs = ["Base", "Gen", "C08", "C11", "C09"]
@@ -83,6 +102,11 @@ class C09(PropBase):
         # 2b. every numeric field of every record kind at 0 / max / one digit too many / out of range (exhaustive)
         for data, tag in G.boundary_files_tagged():
             add("boundary", data, tag=tag)
+        # 2b'. a byte >= 0x80 where a numeric field is read (as its first byte, right after its digits, inside a multi-byte
+        #      character) in every numeric field of every record kind, and as the first byte of a sub-line of FUNC / STACK CFI
+        #      INIT: malformed by the format, so the parse must fail - and must not panic (class of seeded C09-7)
+        for data in nonascii_field_files():
+            add("nonascii-field", data, tag="bad")
         # 2c. a carriage return that is not part of the line ending, inside every record kind (measured hole: rejected INFO lines)
         for data, k in G.cr_inside_files():
             add("cr-inside", data)
